@@ -382,6 +382,7 @@ def judge_history(hist, obs):
     keep = {}
     owner = {}             # serial -> slot that may hand it out
     seen = set()           # every serial that ever served
+    dropped = {}           # (c, k) -> serial that served it until its connection was closed
     for j, (ev, o) in enumerate(zip(hist["events"], obs)):
         if ev[0] == "O":
             keep[ev[1]] = bool(ev[2])
@@ -391,6 +392,7 @@ def judge_history(hist, obs):
         if ev[0] == "X":
             if not keep.get(ev[1], False):
                 for key in [key for key in sess if key[0] == ev[1]]:
+                    dropped[key] = sess[key][0]
                     del sess[key]
             continue
         _, c, k, outcome = ev
@@ -420,6 +422,8 @@ def judge_history(hist, obs):
                 if serial in seen or not created:
                     what = {"single": "single-reused-foreign", "session": "session-not-private",
                             "percall": "percall-reused"}[mode if mode in ("single", "session", "percall") else "percall"]
+                    if mode == "session" and dropped.get((c, k)) == serial:
+                        what = "session-not-dropped"
                     return (what, "%s was served by instance #%d which already served %r" % (where, serial, owner.get(serial)))
                 if table is not None:
                     table[key] = (serial, bool(t))
